@@ -24,7 +24,8 @@ TS = [0, 0.25, 0.5, 0.75, 1, 1 / 3.0]
 def mk(s, cubic=False):
     a, b = float(s[0]), float(s[1])
     if cubic and s == [1, 3] or cubic and s == [2, 3]:
-        return sp.CubicBezier(complex(a), complex(a + (b - a) / 4.0), complex(a + (b - a) / 2.0), complex(b))
+        # a genuinely curved cubic between the two lattice points: its length depends on the requested error / min_depth
+        return sp.CubicBezier(complex(a), complex(a + (b - a) / 4.0, (b - a) * 1.5), complex(a + (b - a) / 2.0, -(b - a)), complex(b))
     return sp.Line(complex(a), complex(b))
 
 
@@ -85,6 +86,21 @@ def compare_fresh(ck, p, hist_prefix, mode, cubic, extra_key=''):
         hq = (hash(p) == hash(fresh))
         fresh.length()
         eq = eq and (p == fresh) and (fresh == p) and not (p != fresh)      # equality must not depend on what either side has cached
+        # ... nor on the tolerance of the first length request since the last mutation (that request decides what is cached)
+        loose = sp.Path(*[type(s)(*s.bpoints()) for s in p])       # new segment objects: the segments of p carry length caches of their own
+        if len(loose):
+            loose.length(error=1e-2, min_depth=1)
+        eq = eq and (loose == fresh) and (fresh == loose) and (p == loose) and not (loose != fresh) and hash(loose) == hash(fresh)
+        if cubic and not bad:
+            c = snapshot(loose)
+            stale = [k for k in c if not close(c[k], b[k])]
+            if stale:
+                ck.disagree(key='Path.length/first-request-tolerance-sticks' + extra_key, site='svgpathtools/path.py:Path._calc_lengths',
+                            what='a Path whose length was first requested with error=1e-2, min_depth=1 answers %s differently from a freshly built Path of the same '
+                                 'segments (_calc_lengths returns early whatever accuracy the cached lengths were computed with)' % stale[:6],
+                            case={'hist': hist_prefix, 'mode': mode, 'cubic': cubic, 'loose_first': True},
+                            expected={k: repr(b[k]) for k in stale}, observed={k: repr(c[k]) for k in stale}, driver='history')
+                return False
     except Exception as e:      # noqa
         eq, hq = 'exc ' + type(e).__name__, True
     if eq is not True:
@@ -235,6 +251,7 @@ def segment_level(ck, rnd, n):
         return memo[key]
     BPS = [{1: (0j, 40 + 100j, 80 - 60j, 100 + 0j), 2: (0j, 10 + 60j, 130 + 40j, 100 + 20j)},
            {1: (0j, 40 + 100j, -1 + 2j, -1 + 2j), 2: (0j, 40 + 100j, -2 + 2j, -2 + 2j)}]      # second set: hash(-1) == hash(-2)
+    ARCS = [(0j, 40 + 15j, 30, False, True, 50 + 20j), (10 + 0j, 8 + 30j, -70, True, False, 5 + 5j)]
     done = 0
     for scipy_on in (False, True):
         old = sppath._quad_available
@@ -243,8 +260,14 @@ def segment_level(ck, rnd, n):
             for hi_, hist in enumerate(cases[:n]):
                 BP = BPS[hi_ % 2]
                 ck.case(fp=('seg', scipy_on, json.dumps(hist)), nontrivial=sum(1 for h in hist if h['op'] == 'QLen') >= 2)
-                for cls in (sp.CubicBezier, sp.QuadraticBezier):
-                    objs = {1: cls(*BP[1][:4 if cls is sp.CubicBezier else 3])}
+                for cls in (sp.CubicBezier, sp.QuadraticBezier, sp.Arc):
+                    if cls is sp.Arc:
+                        # the defining fields of an Arc are not reassigned (derived parameters are computed by the constructor): request / reverse only
+                        if any(h['op'] == 'SetCtrl' for h in hist):
+                            continue
+                        objs = {1: sp.Arc(*ARCS[hi_ % 2])}
+                    else:
+                        objs = {1: cls(*BP[1][:4 if cls is sp.CubicBezier else 3])}
                     for h in hist:
                         o = objs.get(h.get('o', 1))
                         if o is None:
@@ -260,8 +283,9 @@ def segment_level(ck, rnd, n):
                         elif h['op'] == 'QLen':
                             kw = dict(error=ERR[h['e']], min_depth=DEP[h['d']])
                             got = o.length(**kw)
-                            ref = fresh_len(cls, o.bpoints(), scipy_on, error=1e-12, min_depth=11)
-                            want = fresh_len(cls, o.bpoints(), scipy_on, **kw)
+                            flds = o.bpoints() if cls is not sp.Arc else (o.start, o.radius, o.rotation, o.large_arc, o.sweep, o.end)
+                            ref = fresh_len(cls, flds, scipy_on, error=1e-12, min_depth=11)
+                            want = fresh_len(cls, flds, scipy_on, **kw)
                             if not (abs(got - ref) <= abs(want - ref) + 1e-9 * abs(ref)):
                                 key = '%s.length/cache-reused-for-tighter-error' % cls.__name__ if h['e'] == 2 and h['d'] == 1 else \
                                     '%s.length/stale-or-insufficient-cache' % cls.__name__
